@@ -8,7 +8,7 @@ Reads a trace written by the Rust harness, one operation per line:
 
     <op> <args…> => <result tokens> | <snapshot tokens>
 
-re-executes every operation on the model (`P := Int`), prints the model's own `<result> | <snapshot>` in
+re-executes every operation on the model (`P := Pr`, integers ordered by `Pr.rank`), prints the model's own `<result> | <snapshot>` in
 the same canonical format and compares the two strings.  A `case <id> <pq|dpq>` line starts a fresh queue.
 Output: one `DIFF` line per mismatching line (at most one per case: the rest of a diverged case is skipped),
 then a `SUMMARY` line.  No imports outside the model: links natively.
@@ -16,11 +16,30 @@ then a `SUMMARY` line.  No imports outside the model: links natively.
 namespace PQ.Driver
 open PQ
 
-abbrev Entry := Item × Int
+/-- The driver's priority type: an integer ordered by `rank`.  Below `tagBase` the rank is the value itself; from `tagBase`
+on the three low bits are a tag that takes no part in the order (the harness's `Pri` has exactly this `Ord`/`Eq`): two
+priorities can compare equal and still be distinguishable.  `rank` is monotone, so `<` is a strict weak order — an
+instance of the total preorders the theorems quantify over. -/
+structure Pr where
+  v : Int
+  deriving DecidableEq, Inhabited
+
+def tagBase : Int := 1099511627776   -- 2^40
+
+def Pr.rank (p : Pr) : Int := if p.v < tagBase then p.v else tagBase + (p.v - tagBase) / 8
+
+instance : LT Pr := ⟨fun a b => a.rank < b.rank⟩
+instance : DecidableLT Pr := fun a b => inferInstanceAs (Decidable (a.rank < b.rank))
+instance : ToString Pr := ⟨fun p => toString p.v⟩
+
+/-- forget the tag: equality of normalised priorities is the harness's `PartialEq for Pri` -/
+def Pr.norm (p : Pr) : Pr := ⟨p.rank⟩
+
+abbrev Entry := Item × Pr
 
 structure St where
   kind : Kind
-  s : Store Int
+  s : Store Pr
 
 instance : Inhabited St := ⟨⟨.pq, Store.empty⟩⟩
 
@@ -38,10 +57,10 @@ def nat : Pm Nat := do
   | some n => pure n
   | none => throw s!"expected a natural number, got {t}"
 
-def int : Pm Int := do
+def int : Pm Pr := do
   let t ← tok
   match t.toInt? with
-  | some n => pure n
+  | some n => pure ⟨n⟩
   | none => throw s!"expected an integer, got {t}"
 
 def flag : Pm Bool := do
@@ -132,7 +151,7 @@ def xdrain {σ : Type} (step : σ → ICall → R (σ × IOut)) (fuel : Nat) (st
   pure (st, lastSlot, n)
 
 /-! ## canonical printing -/
-def showOptP : Option Int → String
+def showOptP : Option Pr → String
   | none => "none"
   | some p => s!"some {p}"
 
@@ -146,7 +165,7 @@ def showNats (a : Array Nat) : String :=
   a.foldl (fun acc x => acc ++ " " ++ toString x) (toString a.size)
 
 /-- what the public peeks report in this state -/
-def showPeeks (kind : Kind) (s : Store Int) : String :=
+def showPeeks (kind : Kind) (s : Store Pr) : String :=
   match kind with
   | .pq => showOptE (MaxQ.peek s)
   | .dpq =>
@@ -154,7 +173,7 @@ def showPeeks (kind : Kind) (s : Store Int) : String :=
     | .ok a, .ok (_, b) => showOptE a ++ " " ++ showOptE b
     | _, _ => "panic"
 
-def showSnap (kind : Kind) (s : Store Int) (dt : Nat) : String :=
+def showSnap (kind : Kind) (s : Store Pr) (dt : Nat) : String :=
   let m := s.map.foldl (fun acc e => acc ++ " " ++ showE e) s!"m {s.map.size}"
   s!"{m} h {showNats s.heap} q {showNats s.qp} s {s.size} pk {showPeeks kind s} t {dt}"
 
@@ -179,7 +198,7 @@ def showFaultSite : Fault → String
 def showKeys (l : List Entry) : String :=
   l.foldl (fun acc e => acc ++ s!" {e.1.key} {e.1.payload}") (toString l.length)
 
-def showOut (m : IMap Int) : IOut → String
+def showOut (m : IMap Pr) : IOut → String
   | .slot none => "s none"
   | .slot (some i) => match m[i]? with
     | some e => s!"s some {showE e}"
@@ -190,7 +209,7 @@ def showOut (m : IMap Int) : IOut → String
   | .unsupported => "u"
 
 /-! ## snapshot parsing (for `load`) -/
-def snapP : Pm (Store Int) := do
+def snapP : Pm (Store Pr) := do
   let t ← tok; if t != "m" then throw "snapshot: expected m"
   let map ← entries
   let t ← tok; if t != "h" then throw "snapshot: expected h"
@@ -205,7 +224,7 @@ def snapP : Pm (Store Int) := do
 structure PredRow where
   key : Nat
   keep : Bool
-  prio : Option Int
+  prio : Option Pr
   payload : Option Nat
 
 def predRow : Pm PredRow := do
@@ -214,14 +233,14 @@ def predRow : Pm PredRow := do
   let wpl ← flag; let pl ← nat
   pure ⟨key, keep, if wp then some p else none, if wpl then some pl else none⟩
 
-def predOf (rows : Array PredRow) : Item → Int → Bool × Item × Int := fun it p =>
+def predOf (rows : Array PredRow) : Item → Pr → Bool × Item × Pr := fun it p =>
   match rows.find? (fun r => r.key == it.key) with
   | some r =>
     (r.keep, (match r.payload with | some pl => { it with payload := pl } | none => it),
       (match r.prio with | some q => q | none => p))
   | none => (true, it, p)
 
-def writeP : Pm (IMWrite Int) := do
+def writeP : Pm (IMWrite Pr) := do
   let wp ← flag; let p ← int
   let wpl ← flag; let pl ← nat
   pure ⟨if wp then some p else none, if wpl then some pl else none⟩
@@ -234,13 +253,13 @@ def capBad (n : Nat) : Bool := n ≥ 2 ^ 61
 /-- result of one operation: new state, canonical result string -/
 abbrev Res := Except Fault (St × String)
 
-def kOp (st : St) (fpq : Store Int → R (Store Int × String)) (fdpq : Store Int → R (Store Int × String)) : Res := do
+def kOp (st : St) (fpq : Store Pr → R (Store Pr × String)) (fdpq : Store Pr → R (Store Pr × String)) : Res := do
   let (s, out) ← match st.kind with
     | .pq => fpq st.s
     | .dpq => fdpq st.s
   pure ({ st with s := s }, out)
 
-def buildOther (kind : Kind) (xs : Array Entry) : R (Store Int) :=
+def buildOther (kind : Kind) (xs : Array Entry) : R (Store Pr) :=
   match kind with
   | .pq => MaxQ.pushAll xs.toList Store.empty
   | .dpq => DQ.pushAll xs.toList Store.empty
@@ -248,7 +267,7 @@ def buildOther (kind : Kind) (xs : Array Entry) : R (Store Int) :=
 /-- run an `iter_mut` program on the map.  Programs made of primitive calls only go through the model's own
 `iterMutRun` (the function the theorems are about); programs containing `nth`/`nth_back`/`last`/`count` are desugared call by
 call.  Returns the rewritten store, the outputs, and whether the guard was consumed inside the program (`last`/`count`). -/
-def runIterMut (kind : Kind) (prog : Array (XCall × IMWrite Int)) (s : Store Int) : R (Store Int × String × Bool) := do
+def runIterMut (kind : Kind) (prog : Array (XCall × IMWrite Pr)) (s : Store Pr) : R (Store Pr × String × Bool) := do
   let n := s.map.size
   let prims := prog.toList.filterMap fun (c, w) => match c with | .prim c => some (c, w) | _ => none
   if prims.length == prog.size then
@@ -303,14 +322,14 @@ def runIterMut (kind : Kind) (prog : Array (XCall × IMWrite Int)) (s : Store In
 
 /-- the `late` mode of the harness: the references are collected, the guard is dropped (heap rebuilt on the UNCHANGED
 priorities), and only then the writes are performed — what `iter_mut().collect::<Vec<_>>()` followed by writes does -/
-def runIterMutLate (kind : Kind) (prog : Array (XCall × IMWrite Int)) (s : Store Int) : R (Store Int × String) := do
+def runIterMutLate (kind : Kind) (prog : Array (XCall × IMWrite Pr)) (s : Store Pr) : R (Store Pr × String) := do
   let prims := prog.toList.filterMap fun (c, w) => match c with | .prim c => some (c, w) | _ => none
   if prims.length == prog.size then
     -- the model's own definition (`Ops.iterMutLate`); outputs are shown against the unwritten map
     let (s', outs) ← iterMutLate kind s prims
     let out := outs.foldl (fun acc o => acc ++ " " ++ showOut s.map o) ""
     return (s', out)
-  let nowrite : IMWrite Int := ⟨none, none⟩
+  let nowrite : IMWrite Pr := ⟨none, none⟩
   let (_, out, _) ← runIterMut kind (prog.map fun (c, _) => (c, nowrite)) s
   let s1 ← match kind with | .pq => MaxQ.heapBuild s | .dpq => DQ.heapBuild s
   -- now the writes, in yield order, with nobody rebuilding afterwards
@@ -333,7 +352,7 @@ def runIterMutLate (kind : Kind) (prog : Array (XCall × IMWrite Int)) (s : Stor
     | _ => pure ()
   pure ({ s1 with map := map }, out)
 
-def runCursor (m : IMap Int) (calls : Array XCall) : String := Id.run do
+def runCursor (m : IMap Pr) (calls : Array XCall) : String := Id.run do
   let mut c := Cursor.new m.size
   let mut out := ""
   let mut gone := false
@@ -363,7 +382,7 @@ inductive SOut where
   | hint (lo : Nat) (hi : Option Nat)
   | unsupported
 
-def sortedStep (kind : Kind) (s : Store Int) : ICall → R (Store Int × SOut)
+def sortedStep (kind : Kind) (s : Store Pr) : ICall → R (Store Pr × SOut)
   | .next => do
     let (s', r) ← (match kind with | .pq => MaxQ.pop s | .dpq => DQ.popMin s)
     pure (s', .item r)
@@ -376,7 +395,7 @@ def sortedStep (kind : Kind) (s : Store Int) : ICall → R (Store Int × SOut)
   | .len => pure (s, match kind with | .pq => .unsupported | .dpq => .len s.size)
   | .sizeHint => pure (s, match kind with | .pq => .hint 0 none | .dpq => .hint s.size (some s.size))
 
-def runSorted (kind : Kind) (calls : Array XCall) (s : Store Int) : R (String × Nat) := do
+def runSorted (kind : Kind) (calls : Array XCall) (s : Store Pr) : R (String × Nat) := do
   let mut s := s
   let t0 := s.ticks
   let mut out := ""
@@ -479,7 +498,7 @@ def exec (st : St) (op : String) : Pm Res := do
   | "pop_max" => pure <| do let (s, r) ← DQ.popMax s; pure ({ st with s := s }, showOptE r)
   | "pop_if" | "pop_min_if" | "pop_max_if" =>
     let w ← writeP; let ret ← flag
-    let f : Item → Int → Bool × Item × Int := fun it p =>
+    let f : Item → Pr → Bool × Item × Pr := fun it p =>
       (ret, (match w.payload with | some pl => { it with payload := pl } | none => it),
         (match w.prio with | some q => q | none => p))
     pure <| do
@@ -551,8 +570,8 @@ def exec (st : St) (op : String) : Pm Res := do
     pure <| do
       let t0 := s.ticks
       let s' ← match k with
-        | .pq => MaxQ.deserialize (P := Int) s.map
-        | .dpq => DQ.deserialize (P := Int) s.map
+        | .pq => MaxQ.deserialize (P := Pr) s.map
+        | .dpq => DQ.deserialize (P := Pr) s.map
       pure ({ kind := k, s := { s' with ticks := s'.ticks + t0 } }, "ok")
   | "deser" =>
     let xs ← entries
@@ -598,7 +617,35 @@ def exec (st : St) (op : String) : Pm Res := do
     let xs ← entries
     pure <| do
       let o ← buildOther st.kind xs
-      pure ({ st with s := s.tick o.ticks }, toString (Store.eqv s o))
+      -- the priority type's `==` looks at the rank only: compare the rank-normalised maps
+      let nm (x : Store Pr) : Store Pr := { x with map := x.map.map (fun e => (e.1, e.2.norm)) }
+      pure ({ st with s := s.tick o.ticks }, toString (Store.eqv (nm s) (nm o)))
+  | "fresh" =>
+    let _ctor ← nat; let _cap ← nat
+    -- every public constructor gives the empty queue of the model (`Q.new`); capacity is not part of the modelled state
+    pure <| .ok ({ st with s := Store.empty }, "capok")
+  | "dbg" =>
+    -- `Debug` lists, in heap order, the slot index and the entry stored there (an `unwrap` on `get_index`)
+    pure <| do
+      let mut out := toString s.heap.size
+      for i in s.heap do
+        match s.map[i]? with
+        | some e => out := out ++ s!" {i} {showE e}"
+        | none => throw (.unwrapNone 900)
+      pure (st, out)
+  | "deser_unit" =>
+    pure <| do
+      let s' ← match st.kind with
+        | .pq => MaxQ.deserialize (P := Pr) #[]
+        | .dpq => DQ.deserialize (P := Pr) #[]
+      pure ({ st with s := { s' with ticks := s'.ticks + s.ticks } }, "ok")
+  | "deser_bad" =>
+    let _v ← nat; let _xs ← entries
+    -- an ill-formed / ill-typed input is an error; the queue it was to replace is untouched
+    pure <| .ok (st, "err")
+  | "ser_fail" =>
+    let _k ← nat
+    pure <| .ok (st, "err")
   | "clone_swap" => pure <| .ok (st, "unit")
   | "clone_check" => pure <| .ok (st, "true")
   | "load" =>
@@ -608,7 +655,7 @@ def exec (st : St) (op : String) : Pm Res := do
   | _ => throw s!"unknown op {op}"
 
 /-- white-box state without peeks and counter (what the harness can read after an injected fault) -/
-def showCore (s : Store Int) : String :=
+def showCore (s : Store Pr) : String :=
   let m := s.map.foldl (fun acc e => acc ++ " " ++ showE e) s!"m {s.map.size}"
   s!"{m} h {showNats s.heap} q {showNats s.qp} s {s.size}"
 
@@ -618,12 +665,12 @@ def kindName : Kind → String
 
 /-- C10 mirror: run `op` on the crash model with the `k`-th comparison of the operation panicking; returns the model's
 post-unwinding state (`none` = the fuse did not fire). -/
-def execCrash (st : St) (k : Nat) (op : String) : Pm (Except String (Option (Kind × Store Int))) := do
+def execCrash (st : St) (k : Nat) (op : String) : Pm (Except String (Option (Kind × Store Pr))) := do
   -- the ghost counter is zeroed so that `fuse = k` is the k-th comparison of this operation whichever store ends
   -- up as the receiver (`append` may swap)
-  let s : Store Int := { st.s with ticks := 0 }
+  let s : Store Pr := { st.s with ticks := 0 }
   let pq := st.kind == .pq
-  let fin {α : Type} (r : Crash.CR Int α) : Except String (Option (Kind × Store Int)) :=
+  let fin {α : Type} (r : Crash.CR Pr α) : Except String (Option (Kind × Store Pr)) :=
     match r with
     | .ok _ => .ok none
     | .error (.crashed s') => .ok (some (st.kind, s'))
@@ -654,7 +701,7 @@ def execCrash (st : St) (k : Nat) (op : String) : Pm (Except String (Option (Kin
   | "peek_max" => pure <| fin (Crash.DQ.peekMaxF k s)
   | "pop_if" | "pop_min_if" | "pop_max_if" =>
     let w ← writeP; let ret ← flag
-    let f : Item → Int → Bool × Item × Int := fun it p =>
+    let f : Item → Pr → Bool × Item × Pr := fun it p =>
       (ret, (match w.payload with | some pl => { it with payload := pl } | none => it),
         (match w.prio with | some q => q | none => p))
     pure <| match op with
@@ -677,26 +724,26 @@ def execCrash (st : St) (k : Nat) (op : String) : Pm (Except String (Option (Kin
     pure <| if pq then fin (Crash.MaxQ.extendF k s lo xs) else fin (Crash.DQ.extendF k s lo xs)
   | "from_vec" =>
     let xs ← entries
-    pure <| if pq then fin (Crash.MaxQ.fromVecF (P := Int) k xs) else fin (Crash.DQ.fromVecF (P := Int) k xs)
+    pure <| if pq then fin (Crash.MaxQ.fromVecF (P := Pr) k xs) else fin (Crash.DQ.fromVecF (P := Pr) k xs)
   | "from_iter" =>
     let _lo ← nat; let _hi ← optNat; let xs ← entries
-    pure <| if pq then fin (Crash.MaxQ.fromIterF (P := Int) k xs) else fin (Crash.DQ.fromIterF (P := Int) k xs)
+    pure <| if pq then fin (Crash.MaxQ.fromIterF (P := Pr) k xs) else fin (Crash.DQ.fromIterF (P := Pr) k xs)
   | "append" =>
     let _cap ← nat
     let xs ← entries
     pure <| match buildOther st.kind xs with
       | .error f => .error s!"model fault {showFaultSite f} while building the other queue"
       | .ok o =>
-        let o0 : Store Int := { o with ticks := 0 }
+        let o0 : Store Pr := { o with ticks := 0 }
         if pq then fin (Crash.MaxQ.appendF k s o0) else fin (Crash.DQ.appendF k s o0)
   | _ => throw s!"crash mirror: unsupported operation {op}"
 
 /-- C10 mirror, callback fuses: run `op` on the callback crash model (`Model/CrashCb.lean`) with the `k`-th user callback
 (setter / predicate / source-iterator `next`) of the operation panicking on entry; `none` = the operation performs fewer
 callbacks. -/
-def execCrashCb (st : St) (k : Nat) (op : String) : Pm (Except String (Option (Kind × Store Int))) := do
-  let q : Q Int := { kind := st.kind, s := st.s }
-  let fin (r : Crash.CRQ Int (Q Int × Out Int)) : Except String (Option (Kind × Store Int)) :=
+def execCrashCb (st : St) (k : Nat) (op : String) : Pm (Except String (Option (Kind × Store Pr))) := do
+  let q : Q Pr := { kind := st.kind, s := st.s }
+  let fin (r : Crash.CRQ Pr (Q Pr × Out Pr)) : Except String (Option (Kind × Store Pr)) :=
     match r with
     | .ok _ => .ok none
     | .error (.crashed q') => .ok (some (q'.kind, q'.s))
@@ -708,7 +755,7 @@ def execCrashCb (st : St) (k : Nat) (op : String) : Pm (Except String (Option (K
     pure <| fin (Crash.stepCb k q (.changePriorityBy key (fun _ => p)))
   | "pop_if" | "pop_min_if" | "pop_max_if" =>
     let w ← writeP; let ret ← flag
-    let f : Item → Int → Bool × Item × Int := fun it p =>
+    let f : Item → Pr → Bool × Item × Pr := fun it p =>
       (ret, (match w.payload with | some pl => { it with payload := pl } | none => it),
         (match w.prio with | some q => q | none => p))
     pure <| fin (Crash.stepCb k q (if op == "pop_max_if" then .popBackIf f else .popFrontIf f))
@@ -758,6 +805,7 @@ def copyOpTicks (st : St) (op : String) (args : List String) : Nat :=
 def runLine (st : St) (lhs : List String) : Except String (St × String) :=
   match lhs with
   | [] => .error "empty line"
+  | "ref" :: rest => runLine st rest    -- `(&q).into_iter()` / `(&mut q).into_iter()`: the same iterators
   | op :: args =>
     if (op.startsWith "!cmp" || op.startsWith "!cb") && (match args with | inner :: _ => !inner.startsWith "!" | [] => false) then
       let isCb := op.startsWith "!cb"
